@@ -337,7 +337,94 @@ except BaseException as e:
         return None, out
 
 
-SCENARIOS = {"close": CloseScn, "both": BothCloseScn}
+class LateCloseScn:
+    """the peer ended its side first (P["how"]), then this side closes explicitly: on the closing side
+    isclosed() is true, send raises OSError, a second close is a no-op -- whatever state the peer's
+    ending had left the channel in (closed, "sendonly" after a dropped handle, connection finished)"""
+
+    PEER = {
+        "peer-close": "c = channel.receive()\nc.send('last')\nc.close()\nchannel.send('ended')\nchannel.receive()",
+        "peer-drop": "c = channel.receive()\nc.send('last')\ndel c\nchannel.send('ended')\nchannel.receive()",
+        "peer-drop-cb": "W = channel.gateway.execmodel.world\nc = channel.receive()\nc.send('last')\nc.setcallback(lambda x: W.observe('peer-cb', x), endmarker='END')\ndel c\nchannel.send('ended')\nchannel.receive()",
+        "gateway-exit": "c = channel.receive()\nc.send('last')\nchannel.send('ended')\nchannel.receive()",
+    }
+
+    @staticmethod
+    def scenario(w, P):
+        S = Session(w, P.get("transport", "popen"), P.get("backend", "thread"))
+
+        def main():
+            gw = S.open()
+            em = S.proc.execmodel
+            ctl = gw.remote_exec(LateCloseScn.PEER[P["how"]])
+            c = gw.newchannel()
+            ctl.send(c)
+            w.exploring = True
+            try:
+                ctl.receive(timeout=10)
+                got = [c.receive(timeout=10)]
+                if P["how"] == "gateway-exit":
+                    gw.exit()
+                    gw.join(timeout=10)
+                if P["how"] != "peer-drop-cb" or P.get("drain"):
+                    try:
+                        c.receive(timeout=5)
+                        got.append("extra")
+                    except EOFError:
+                        got.append("EOF")
+                    except c.TimeoutError:
+                        got.append("timeout")
+                w.observe("got", got)
+                c.close()
+                st = [c.isclosed()]
+                try:
+                    c.send(1)
+                    st.append("sent")
+                except OSError:
+                    st.append("OSError")
+                c.close()
+                st.append(c.isclosed())
+                try:
+                    c.waitclose(5)
+                    st.append("waitclose-ok")
+                except BaseException as e:  # noqa: BLE001
+                    st.append(type(e).__name__)
+                w.observe("closer", st)
+            except BaseException as e:  # noqa: BLE001
+                w.observe("closer-exc", type(e).__name__, str(e)[:100])
+            em.sleep(1.0)
+            w.exploring = False
+            w.observe("main-done")
+            try:
+                ctl.send("bye")
+            except OSError:
+                pass
+            S.group.terminate(timeout=5.0)
+
+        S.main(main)
+        return S
+
+    @staticmethod
+    def oracle(w, S, P):
+        obs = w.obs
+        out = tuple(e[0] for e in obs)
+        if ("main-done",) not in obs:
+            return ("c03:late-close-hang", f"P={P} obs={obs} blocked={w.blocked_at_end}"), out
+        for e in obs:
+            if e[0] == "closer-exc":
+                return ("c03:late-close-exception", f"P={P} {e}"), out
+        st = [e[1] for e in obs if e[0] == "closer"]
+        # waitclose() after the connection is gone may report the loss (EOFError): not part of this clause
+        if not st or st[0][:3] != [True, "OSError", True] or st[0][3] not in ("waitclose-ok", "EOFError"):
+            return ("c03:closer-state", f"P={P}: after the peer had ended its side ({P['how']}) an explicit close() left [isclosed, send, isclosed after 2nd close, waitclose] = {st}; expected [True, 'OSError', True, 'waitclose-ok']\n  obs={obs}"), out
+        if P["how"] == "peer-drop-cb":
+            cb = [e[1] for e in obs if e[0] == "peer-cb"]
+            if cb != ["END"]:
+                return ("c03:peer-callback-not-ended", f"P={P}: the peer listens through a callback; after our close() it saw {cb}, expected exactly its endmarker"), out
+        return None, out
+
+
+SCENARIOS = {"close": CloseScn, "both": BothCloseScn, "late": LateCloseScn}
 
 
 def stmt_pred(m, q, l):
@@ -392,6 +479,15 @@ def run(tier: str, only=None) -> int:
                 continue
             P = dict(H, transport=tr, backend=be)
             harness.run_exploration(rep, PID, name, CloseScn, P, {"ps": 1, "free": 0}, max_execs=cap)
+    for how in LateCloseScn.PEER:
+        for tr, be in (("popen", "thread"), ("socket", "thread"), ("via", "thread"), ("popen", "main_thread_only")):
+            if (tr, be) != ("popen", "thread") and tier == "quick" and how not in ("peer-drop-cb", "gateway-exit"):
+                continue
+            name = f"late/{how}:{tr}:{be}"
+            if only and only not in name:
+                continue
+            P = {"how": how, "transport": tr, "backend": be}
+            harness.run_exploration(rep, PID, name, LateCloseScn, P, {"ps": 1, "free": 0} if tier == "quick" else {"ps": 2, "free": 1}, max_execs=cap)
     if not only or "both" in only:
         P = {"transport": "popen", "backend": "thread"}
         harness.run_exploration(rep, PID, "both/sync", BothCloseScn, P, b_sync, max_execs=cap)
